@@ -53,3 +53,15 @@ package ingest
 //@ func Worlds.FindOrCreateWorld
 //@   trusted
 //@   pure
+
+// ---- C24: the sortedness flag of a collection feature travels with its keys --------
+// FindValue / FindValues binary-search the keys exactly when the flag is set, so
+// every operation that replaces the keys must replace the flag with them
+// (representation invariant: sorted ==> Keys ordered by b6.Less).
+//@ func (*CollectionFeature).MergeFromCollectionFeature
+//@   requires c != nil && other != nil && c != other
+//@   ensures c.sorted == other.sorted && c.CollectionID == other.CollectionID
+//@   ensures len(c.Keys) == len(other.Keys) && len(c.Values) == len(other.Values)
+//@   ensures forall(i, 0, len(other.Keys), c.Keys[i] == other.Keys[i])
+//@   ensures forall(i, 0, len(other.Values), c.Values[i] == other.Values[i])
+//@   ensures other.sorted == old(other.sorted) && len(other.Keys) == old(len(other.Keys))
